@@ -10,6 +10,17 @@
 use crate::*;
 use crate::verif_support::*;
 
+/// "ALWAYS panics" obligations are `#[kani::should_panic]` harnesses whose real check is the `unreach:` cover after
+/// the call.  Kani reports "no panics, but at least one was expected" as a failure WITHOUT a failed check when the
+/// callee never panics (the driver then says UNDECIDED instead of refuted); this nondeterministic sentinel panic keeps
+/// the should_panic verdict defined, so that a callee that returns normally is reported through the violated
+/// `unreach:` cover of the named obligation.  It constrains nothing: the other branch continues to the call.
+fn always_panics_sentinel() {
+    if kani::any() {
+        panic!("sentinel: not part of the obligation");
+    }
+}
+
 /// Any `Unit::new(m, s)` over the whole i8 x i8 grid (no operator is applied to it, so A8 is not needed).
 fn any_unit_full() -> Unit {
     Unit::new(kani::any::<i8>(), kani::any::<i8>())
@@ -299,6 +310,7 @@ fn c14_state_new_ok() {
 #[kani::proof]
 #[kani::should_panic]
 fn c14_state_new_wrong_unit_panics() {
+    always_panics_sentinel();
     let p = any_quantity_full();
     let v = any_quantity_full();
     let a = any_quantity_full();
